@@ -1,40 +1,51 @@
 """C28 — a lock is held by at most one owner and only its owner can release it.
-Spec: spec/L2Lock.tla (+L2LockTrace).  The specification models cache.L2InMemoryCache and the adapters/redis
-locker access by access (one step = one atomic table access / one Redis command).  TLC checks MutualExclusion and
-OnlyOwnerReleases over every interleaving of those steps and clock ticks for small constants, and over whole calls
-for larger ones.  Binding: TLC-generated behaviours (one shortest call sequence per distinct reachable state),
-seeded random programs, command-level interleavings (redis, scheduled through the RESP server's gate) and concurrent
-goroutines (in-memory) are executed against the real services; every call with arguments and result is validated by
-L2LockTrace, which evaluates the C28 invariants after every event."""
-import json, os, re
+
+Spec: spec/L2Lock.tla (+L2LockTrace).  The specification models cache.L2InMemoryCache and the adapters/redis locker
+access by access (one step = one atomic table access / one Redis command).  TLC checks MutualExclusion and
+OnlyOwnerReleases over every interleaving of those steps and clock ticks (2 owners) and over every sequence of whole
+calls and ticks (3 owners), capacities 1, 2, unbounded.  Binding: one shortest call sequence per distinct reachable
+state of the model (emitted by TLC), seeded random programs, command-level interleavings (redis, scheduled through
+the RESP server's gate) and concurrent goroutines (in-memory) are executed on the real services; every call with
+arguments and result is validated by L2LockTrace, which evaluates the C28 invariants after every event.
+
+Findings.  The model contains three named finding actions (what the code does today, contradicting C28):
+evict (in-memory insert into a full shard evicts a live lock), delete (redis Unlock deletes by key), shorten (redis
+IsLockedTTL of a non-owner cuts the holder's TTL).  The trace spec accepts both the repaired and the as-is step and
+reports, per trace, which finding actions an explanation of the trace needs; a trace that cannot be explained without
+one is reported under the signature finding:<variant>:<action>; a trace that cannot be explained at all is
+reported as unexplained:... ."""
+import json, os, re, shutil, threading
+from concurrent.futures import ThreadPoolExecutor
 import vlib
 
 META = dict(
     property_id="C28", engine="L2Lock",
     technique="TLA+ model of both lock services at table-access granularity; TLC exhaustive (interleavings x expiry x capacity); "
-              "TLC behaviours + random/interleaved/concurrent programs run on the real services, traces validated by TLC",
+              "TLC-emitted behaviours (one per distinct state) + random/interleaved/concurrent programs run on the real services, "
+              "every call validated by TLC against the spec",
     level="model_checking",
-    level_text="TLC explores every interleaving of the table accesses of 2 owners over 2 keys (and every sequence of whole calls of "
-               "3 owners over 3 keys) with ticks at any point, capacities 1, 2 and unbounded, both services; the model is tied to "
-               "the code by trace validation of real executions (serial, command-interleaved for redis, concurrent for in-memory) "
-               "whose results must be exactly those the specification computes.",
-    level_note="Redis is played by harness/lib/resp (RESP2 server with a virtual clock): its fidelity for SET NX PX/GET/GETEX/DEL is "
-               "trusted.  In-memory TTLs use real time with guarded windows (traces with a call outside its window are re-run, not "
-               "judged).  In-memory table accesses inside one call cannot be scheduled from outside: interleavings inside calls are "
-               "covered by the model and by unscheduled concurrent runs only.  Redis server-side eviction is not modelled.",
+    level_text="TLC explores every interleaving of the table accesses of 2 owners over 2-3 keys and every sequence of whole calls "
+               "of 3 owners over 2-3 keys, with ticks at any point, capacities 1, 2 and unbounded, both services.  The model is "
+               "tied to the code by trace validation: for every distinct state of the whole-call model one shortest call sequence "
+               "reaching it is executed on the real service and must produce exactly the results the specification computes; "
+               "random, command-interleaved (redis) and concurrent (in-memory) executions are validated the same way.",
+    level_note="Redis is played by harness/lib/resp (RESP2 server with a virtual clock): its fidelity for SET NX PX/GET/GETEX/DEL "
+               "is trusted.  In-memory TTLs use real time with guarded windows (a trace with a call outside its window is re-run, "
+               "never judged).  Table accesses inside one in-memory call cannot be scheduled from outside: those interleavings "
+               "are covered by the model and by unscheduled concurrent runs only.  Redis server-side eviction is not modelled.  "
+               "Bounds: 2-3 owners, 2-3 keys, TTL 1-2 units in exhaustive runs; up to 4 owners, 6 keys in validated executions.",
     design_ref="C28",
 )
 
 INF = 99
-FIELDS = dict(o="-", op="", ks=[], ttl=0, ok=True, other="-", variant="", cap=INF, silent=False, cmd="")
-
-STRICT = "L2LockTrace.cfg"
-FINDING_CFGS = [  # (cfg that switches exactly one finding action on, finding tag)
-    ("mem", "L2LockTrace_EvictLive.cfg", "mem:insert-into-full-table-evicts-live-lock"),
-    ("redis", "L2LockTrace_ForeignDelete.cfg", "redis:unlock-deletes-lock-of-other-owner"),
-    ("redis", "L2LockTrace_ForeignShorten.cfg", "redis:islockedttl-of-non-owner-shortens-ttl"),
-    ("redis", "L2LockTrace_RedisAll.cfg", "redis:unlock-deletes-lock-of-other-owner+islockedttl-of-non-owner-shortens-ttl"),
-]
+FIELDS = dict(o="-", op="", ks=[], ttl=0, ok=True, other="-", variant="", cap=INF, silent=False, cmd="", id=0)
+ACTIONS = {"MBegin", "MStep", "FTick", "AStepNoHist", "AStep", "ATick"}
+TAGS = ("evict", "delete", "shorten")
+WHAT = dict(
+    evict="in-memory lock table: inserting a key into a full shard evicts an unexpired lock of another owner",
+    delete="redis Unlock deletes by key without comparing the owner: a late or repeated Unlock frees the next owner's lock",
+    shorten="redis IsLockedTTL (GETEX) sets the TTL before comparing the owner: a non-owner's call cuts the holder's lock TTL",
+)
 
 
 def norm(evs):
@@ -46,17 +57,17 @@ def norm(evs):
     return out
 
 
-def variant_of(evs):
+def setup_of(evs):
     for e in evs:
         if e.get("ev") == "Setup":
             return e.get("variant"), e.get("cap")
     return None, None
 
 
-def behaviours_from(res, tag="BEH"):
+def behaviours_from(res):
     out = []
     for p in res.prints:
-        m = re.match(r'<<"%s", (".*")>>$' % tag, p)
+        m = re.match(r'<<"BEH", (".*")>>$', p)
         if m:
             out.append(json.loads(vlib.tla_unquote(m.group(1))))
     return out
@@ -67,61 +78,238 @@ def program_of(b, name, owners, nkeys):
     return dict(name=name, variant=b["variant"], cap=b["cap"], owners=owners, nkeys=nkeys, steps=steps, probe=True)
 
 
-def judge(c, traces, kind):
-    """Validate traces strictly; classify every rejected trace: explained by exactly one known finding action
-    (then the rest of the trace is still validated with that action switched on) or unexplained."""
-    traces = [(n, norm(e)) for n, e in traces]
-    rej = c.validate_traces("L2LockTrace", STRICT, traces, chunk=400)
-    stats = dict(rejected=len(rej))
-    reported = 0
-    for x in rej:
-        variant, cap = variant_of(x["events"])
-        ev = x["event"] or {}
-        explained = None
-        for v, cfg, tag in FINDING_CFGS:
-            if v != variant:
-                continue
-            r2 = c.validate_traces("L2LockTrace", cfg, [(x["trace"], x["events"])])
-            if not r2:
-                explained = tag
-                break
-        capname = "inf" if cap == INF else "finite"
-        if explained:
-            sig = "finding:%s" % explained
-            what = ("%s: real %s lock service, trace %s, first strict rejection at event %d %s; the trace is a behaviour of the "
-                    "model with that finding action enabled" % (explained, variant, x["trace"], x["index"], json.dumps(ev)))
+_lock = threading.Lock()
+_seq = [0]
+
+
+def _validate_chunk(c, off, part, cfg, timeout):
+    ends, rej = {}, []
+    pending = [(off + j, t[0], norm(t[1]) + [dict(FIELDS, ev="End", id=off + j)]) for j, t in enumerate(part)]
+    while pending:
+        lines, index = [], []
+        for ti, (gid, name, evs) in enumerate(pending):
+            lines.append(json.dumps(dict(FIELDS, ev="Reset")))
+            index.append((ti, -1))
+            for ei, ev in enumerate(evs):
+                lines.append(json.dumps(ev, sort_keys=True))
+                index.append((ti, ei))
+        with _lock:
+            _seq[0] += 1
+            tag = "trace%d" % _seq[0]
+        r = c.tlc("L2LockTrace", cfg, workers=1, timeout=timeout, files={"trace.ndjson": "\n".join(lines) + "\n"}, tag=tag)
+        if r.timed_out:
+            raise vlib.InfraError("trace validation timed out")
+        hwm = None
+        for pr in r.prints:
+            m = re.search(r'"HWM",\s*(\d+)', pr)
+            if m:
+                hwm = int(m.group(1))
+            m = re.match(r'<<"END", (\d+), \{(.*)\}>>$', pr)
+            if m:
+                ends.setdefault(int(m.group(1)), []).append(frozenset(re.findall(r'"(\w+)"', m.group(2))))
+        if hwm is None:
+            raise vlib.InfraError("trace validation produced no HWM:\n%s" % r.out[-4000:])
+        if r.violated not in (None, "postcondition"):
+            # an invariant of C28 broken on an *untainted* explanation of an implementation trace, or a spec error
+            raise vlib.InfraError("trace spec: %s violated\n%s" % (r.violated, r.out[-4000:]))
+        with _lock:
+            c.cov["states"] += r.distinct
+            c.cov["transitions"] += r.generated
+        shutil.rmtree(r.wd, ignore_errors=True)
+        if hwm >= len(lines):
+            with _lock:
+                c.cov["traces_validated_against_impl"] += len(pending)
+            pending = []
         else:
-            sig = "unexplained:%s:cap-%s:%s:%s:ok=%s" % (variant, capname, ev.get("ev"), ev.get("op"), ev.get("ok"))
-            what = ("real %s lock service (cap %s) did something the specification does not allow at event %d of trace %s: %s"
-                    % (variant, cap, x["index"], x["trace"], json.dumps(ev)))
-        if reported < 6 or not explained:
-            c.report(sig, what, dict(kind=kind, trace=x["trace"], events=x["events"], rejected_index=x["index"],
-                                     tlc=x.get("tlc_tail", "")))
-            reported += 1
-        stats[sig] = stats.get(sig, 0) + 1
+            ti, ei = index[hwm]
+            gid, name, evs = pending[ti]
+            rej.append(dict(i=gid, trace=name, index=ei, event=evs[ei] if ei >= 0 else None, events=evs))
+            with _lock:
+                c.cov["traces_validated_against_impl"] += ti
+            pending = pending[ti + 1:]
+    return ends, rej
+
+
+def validate(c, traces, cfg="L2LockTrace.cfg", chunk=None, timeout=1500, par=4):
+    """traces: [(name, events)].  Chunks are validated by parallel TLC runs (one worker each); every trace ends with
+    an End event carrying its index.  Returns (ends, rejections): ends[i] = list of taint sets (one per way TLC found
+    to explain trace i); rejections = [dict(i=, index=, event=)] for traces no behaviour of the spec explains."""
+    if not traces:
+        return {}, []
+    chunk = chunk or max(150, min(1500, (len(traces) + par - 1) // par))
+    ends, rej = {}, []
+    with ThreadPoolExecutor(max_workers=par) as ex:
+        futs = [ex.submit(_validate_chunk, c, off, traces[off:off + chunk], cfg, timeout) for off in range(0, len(traces), chunk)]
+        for f in futs:
+            e, r = f.result()
+            ends.update(e)
+            rej += r
+    return ends, rej
+
+
+def judge(c, traces, kind, stats):
+    ends, rej = validate(c, traces)
+    rejected = set(x["i"] for x in rej)
+    for x in rej[:3]:
+        variant, cap = setup_of(x["events"])
+        ev = x["event"] or {}
+        sig = "unexplained:%s:cap-%s:%s:%s:ok=%s" % (variant, "inf" if cap == INF else "finite", ev.get("ev"), ev.get("op"), ev.get("ok"))
+        c.report(sig, "real %s lock service (cap %s) did something no behaviour of the specification explains, at event %d of %s trace %s: %s"
+                 % (variant, cap, x["index"], kind, x["trace"], json.dumps({k: ev.get(k) for k in ("ev", "o", "op", "ks", "ttl", "ok", "other", "cmd")})),
+                 dict(kind=kind, trace=x["trace"], events=x["events"], rejected_index=x["index"]))
+    stats["unexplained"] = stats.get("unexplained", 0) + len(rej)
+    shown = {}
+    for i, (name, evs) in enumerate(traces):
+        if i in rejected:
+            continue
+        sets = ends.get(i)
+        if not sets:
+            raise vlib.InfraError("no END record for accepted trace %s" % name)
+        if frozenset() in sets:
+            stats["conforming"] = stats.get("conforming", 0) + 1
+            continue
+        best = sorted(sorted(s) for s in sets if len(s) == min(len(t) for t in sets))[0]
+        variant, cap = setup_of(evs)
+        for tag in best:
+            sig = "finding:%s:%s" % (variant, tag)
+            stats[sig] = stats.get(sig, 0) + 1
+            if shown.get(sig, 0) < 2:
+                shown[sig] = shown.get(sig, 0) + 1
+                c.report(sig, "%s  [%s trace %s: %s]" % (WHAT.get(tag, tag), kind, name, brief(evs)),
+                         dict(kind=kind, trace=name, events=evs, needs=best))
     return stats
 
 
+def brief(evs):
+    out = []
+    for e in evs:
+        if e.get("ev") == "Setup":
+            out.append("%s cap=%s" % (e.get("variant"), e.get("cap")))
+        elif e.get("ev") == "Call":
+            out.append("%s.%s(%s%s)=%s" % (e["o"], e["op"], e["ks"], ",ttl=%d" % e["ttl"] if e.get("ttl") else "", "T" if e["ok"] else "F"))
+        elif e.get("ev") in ("Tick", "Begin", "Return", "Step"):
+            out.append(e["ev"] + (":" + e["o"] if e.get("o") else ""))
+        if len(out) > 14:
+            out.append("...")
+            break
+    return " ".join(out)
+
+
 def run(c):
-    quick = c.quick
     cov = c.cov
-    # ------------------------------------------------------------------ 1. design level
-    design = []
-    for cfg, workers, to in c.pick(
-            [("L2Lock_mc.cfg", 4, 600), ("L2Lock_mc_code.cfg", 4, 600)],
-            [("L2Lock_mc.cfg", 4, 900), ("L2Lock_mc_code.cfg", 4, 900), ("L2Lock_mc_fine.cfg", 6, 1500),
-             ("L2Lock_mc_fine_code.cfg", 6, 1500)]):
-        r = c.tlc_must_pass("L2Lock", cfg, workers=workers, timeout=to, coverage=True)
-        design.append((cfg, r))
-        zero = [a for a, (d, t) in r.coverage.items() if t == 0 and a in ACTIONS]
-        if zero:
-            raise vlib.InfraError("vacuous model: actions never taken in %s: %s" % (cfg, zero))
-    cov["design_runs"] = {cfg: dict(states=r.distinct, transitions=r.generated, depth=r.depth,
-                                    actions={a: r.coverage[a] for a in r.coverage if a in ACTIONS}) for cfg, r in design}
+    # ------------------------------------------------------------------ 1. design level: TLC runs start now, in the background
+    plan = c.pick(
+        [("L2Lock_emit.cfg", 4, 900), ("L2Lock_mc_fine_quick.cfg", 4, 900)],
+        [("L2Lock_mc.cfg", 5, 1750), ("L2Lock_mc_fine.cfg", 4, 1750), ("L2Lock_emit.cfg", 3, 1500), ("L2Lock_mc_fine3.cfg", 4, 1750),
+         ("L2Lock_emit3.cfg", 3, 1500), ("L2Lock_mc_strict.cfg", 2, 1500)])
+    pool = ThreadPoolExecutor(max_workers=3)
+    futs = {cfg: pool.submit(c.tlc, "L2Lock", cfg, workers=w, timeout=to, coverage=True, tag=cfg[:-4]) for cfg, w, to in plan}
+    cov["design_runs"] = {}
+
+    def design(cfg):
+        r = futs[cfg].result()
+        if r.timed_out:
+            raise vlib.InfraError("TLC timed out on L2Lock/%s" % cfg)
+        if not r.ok:
+            raise vlib.InfraError("TLC design check L2Lock/%s failed (violated=%s)\n%s" % (cfg, r.violated, r.out[-5000:]))
+        with _lock:
+            cov["states"] += r.distinct
+            cov["transitions"] += r.generated
+        acts = {a: list(r.coverage[a]) for a in r.coverage if a in ACTIONS}
+        zero = [a for a, (d, t) in acts.items() if t == 0]
+        if zero or not acts:
+            raise vlib.InfraError("vacuous model: actions never taken in %s: %s" % (cfg, zero or "no coverage parsed"))
+        cov["design_runs"][cfg] = dict(states=r.distinct, transitions=r.generated, depth=r.depth, actions=acts, wall_s=round(r.wall, 1))
+        return r
+
+    try:
+        _run(c, design, plan)
+    finally:
+        pool.shutdown(wait=True, cancel_futures=True)
+
+
+def _run(c, design, plan):
+    cov = c.cov
+    binp = c.build("l2lock")
+    stats = {}
+    ntr = 0
+
+    def drive(mode, inp, name):
+        fin = os.path.join(c.scratch, name + ".json")
+        fout = os.path.join(c.scratch, name + ".ndjson")
+        json.dump(inp, open(fin, "w"))
+        p = c.run([binp, mode, fin, fout], timeout=1500)
+        info = json.loads(p.stdout.strip().splitlines()[-1])
+        tr = vlib.split_traces(vlib.read_ndjson(fout))
+        return tr, info
+
+    # ------------------------------------------------------------------ 2. code -> spec: random serial programs
+    rnd = dict(count=c.pick(400, 4000), maxlen=14, variants=["mem", "redis"], caps=[1, 2, 3, 6, INF], owners=4, keys=6,
+               maxttl=3, tickpct=18, seed=c.seed)
+    tr_rnd, info = drive("random", rnd, "rnd")
+    if info["timing_dropped"] > max(3, rnd["count"] // 50):
+        raise vlib.InfraError("too many in-memory traces could not be timed reliably: %s" % info)
+    cov["random"] = info
+    # ------------------------------------------------------------------ 3. redis: command-level interleavings
+    ilv = dict(count=c.pick(150, 1500), maxlen=3, variants=["redis"], caps=[INF], owners=3, keys=3, maxttl=2, tickpct=8,
+               seed=c.seed + 1000)
+    tr_ilv, info = drive("interleave", ilv, "ilv")
+    # ------------------------------------------------------------------ 4. mem: concurrent goroutines
+    strs = dict(count=c.pick(100, 1000), maxlen=4, variants=["mem"], caps=[1, 2, INF], owners=3, keys=3, maxttl=2, tickpct=0,
+                seed=c.seed + 2000)
+    tr_str, info = drive("stress", strs, "str")
+    cov["stress"] = info
+    for kind, tr in (("random", tr_rnd), ("interleaved", tr_ilv), ("concurrent", tr_str)):
+        stats[kind] = judge(c, tr, kind, {})
+        ntr += len(tr)
+        c.sample(dict(kind=kind, trace=tr[0][1][:16]))
+    # ------------------------------------------------------------------ 5. spec -> code: one behaviour per distinct state
+    progs, reach = [], {t: 0 for t in TAGS}
+    for cfg, owners, nkeys in (("L2Lock_emit.cfg", ["A", "B", "C"], 2), ("L2Lock_emit3.cfg", ["A", "B"], 3)):
+        if cfg not in [p[0] for p in plan]:
+            continue
+        r = design(cfg)
+        seen = set()
+        for b in behaviours_from(r):
+            key = json.dumps([b["variant"], b["cap"], [[h["o"], h["op"], h["ks"], h["ttl"]] for h in b["hist"]]])
+            if key in seen or not b["hist"]:
+                continue
+            seen.add(key)
+            for t in b.get("taints", []):
+                reach[t] += 1
+            progs.append(program_of(b, "beh-%s-%d" % (cfg[7:-4], len(progs)), owners, nkeys))
+    if len(progs) < 1000:
+        raise vlib.InfraError("too few behaviours emitted by TLC: %d" % len(progs))
+    if min(reach.values()) == 0:
+        raise vlib.InfraError("a finding action of the model is unreachable: %s" % reach)
+    cov["behaviours_emitted"] = len(progs)
+    cov["finding_steps_in_emitted_behaviours"] = reach
+    tr, info = drive("replay", progs, "beh")
+    if info["timing_dropped"] > len(progs) // 50:
+        raise vlib.InfraError("too many in-memory traces could not be timed reliably: %s" % info)
+    cov["replay"] = info
+    stats["tlc-behaviour"] = judge(c, tr, "tlc-behaviour", {})
+    ntr += len(tr)
+    c.sample(dict(kind="tlc-behaviour", trace=tr[len(tr) // 2][1][:12]))
+    # ------------------------------------------------------------------ the remaining design runs
+    for cfg, _, _ in plan:
+        if cfg not in cov["design_runs"]:
+            design(cfg)
     cov["exhaustive"] = True
+    # ------------------------------------------------------------------ evidence
+    cov["trace_verdicts"] = stats
+    conforming = sum(s.get("conforming", 0) for s in stats.values())
+    cov.update(dict(
+        evaluations=ntr, distinct_nontrivial=len(progs),
+        rule="one case = one executed call sequence; distinct_nontrivial counts the TLC-emitted behaviours only: one shortest "
+             "call sequence for every distinct state (modulo owner renaming) of the whole-call model, each executed on the real "
+             "service and validated; evaluations adds the random, interleaved and concurrent traces",
+        traces_conforming_to_repaired_model=conforming,
+    ))
+    c.assumptions += ["harness/lib/resp stands in for Redis (virtual clock; SET NX PX, GET, GETEX, DEL semantics as documented)",
+                      "in-memory expiry is driven by real time inside guarded windows",
+                      "exhaustive bounds: 2 owners (interleaved table accesses) / 3 owners (whole calls), 2-3 keys, TTL 1-2 units"]
 
-
-ACTIONS = {"MBegin", "MStep", "FTick", "AStepNoHist", "ATickNoHist", "AStep", "ATick"}
 
 if __name__ == "__main__":
     vlib.main(run, "C28")
